@@ -1,9 +1,19 @@
 package c30
 
 import (
+	"runtime"
+	"runtime/debug"
 	"testing"
 
 	"google.golang.org/protobuf/zverif/pbt"
 )
 
-func TestMain(m *testing.M) { pbt.Main(m, "C30") }
+func TestMain(m *testing.M) {
+	// the check allocates many short-lived message trees: trade a little memory for less GC work,
+	// and do not let 16 parallel shards start 16 GC workers each
+	debug.SetGCPercent(400)
+	if pbt.NShards > 1 {
+		runtime.GOMAXPROCS(2)
+	}
+	pbt.Main(m, "C30")
+}
